@@ -745,7 +745,12 @@ impl<'a, R: ?Sized + std::io::BufRead> Tokenizer<'a, R> {
 
                 // Verify we're not in a here document.
                 if !matches!(self.cross_state.here_state, HereState::None) {
-                    if self.remove_here_end_tag(&mut state, &mut result, false)? {
+                    // Only a here-document whose body we are already reading can be ended by
+                    // the end of the input; before that (the tag's line is not finished yet)
+                    // matching an empty tag against the empty rest makes no progress.
+                    if matches!(self.cross_state.here_state, HereState::InHereDocs)
+                        && self.remove_here_end_tag(&mut state, &mut result, false)?
+                    {
                         // If we hit end tag without a trailing newline, try to get next token.
                         continue;
                     }
